@@ -93,9 +93,12 @@ pub fn run(ctx: &Ctx) -> i32 {
         let fmt = &fmts[*fi];
         let cw = [tw * 2, tw * 2 + 1, 1][*cwi];
         let ch = [th * 2, (th * 2 - 1).max(1), 1][*chi];
-        let tpx = tile_pixels(fmt, *n, *tw, *th, 3, (1, 9));
+        // tile pixels (and, for indexed sprites, the palette) change with the stored map size, so that
+        // consecutive sprites of a row have tilesets with equal id / count / tile size but different content
+        let tpxs: Vec<Vec<u8>> = (0..9u32).map(|k| tile_pixels(fmt, *n, *tw, *th, 3 + k, (1, 9))).collect();
         for mw in 1..=3u16 {
             for mh in 1..=3u16 {
+                let tpx = &tpxs[((mw - 1) * 3 + (mh - 1)) as usize];
                 for ox in -3..=3i16 {
                     for oy in -3..=3i16 {
                         for pat in 0..4u32 {
@@ -106,7 +109,7 @@ pub fn run(ctx: &Ctx) -> i32 {
                                 }
                                 let mut f = gen::file(cw, ch, fmt, &[10]);
                                 if *fi == 2 {
-                                    f.frames[0].push(new_palette(0, pal_entries(10, 5)));
+                                    f.frames[0].push(new_palette(0, pal_entries(10, 5 + mw as u32)));
                                 }
                                 f.frames[0].push(Body::Tileset(tileset(6, *n, *tw, *th, tpx.clone(), "ts")));
                                 let mut l = Layer::tilemap("map", 6);
